@@ -875,6 +875,12 @@ class ExprMixin:
         return out
 
     def need_value(self, v):
+        if isinstance(v, Entity) and v.kind == 'ext' and v.data in api.EXT_VALUES:
+            ty, lit = api.EXT_VALUES[v.data]
+            ty = parse_type(ty)
+            if lit is not None:
+                return self.const_value(lit)
+            return SV(ty, z3.Const('ext_' + v.data.replace('.', '_'), ty.sort()))
         if isinstance(v, Entity) and v.kind == 'localfunc':
             # a nested function used as a value (stored, passed on): an opaque callable
             return fresh(TOpaque('PyVal'), 'closure')
@@ -1435,7 +1441,7 @@ class ExprMixin:
             want_map = idx.ty == TStr or (isinstance(idx.ty, TOpt) and idx.ty.inner == TStr)
             base = self.narrow_union(st, base, node, 'subscript',
                                      (lambda t: isinstance(t, TMap)) if want_map else
-                                     (lambda t: isinstance(t, TSeq) or t == TStr))
+                                     (lambda t: isinstance(t, (TSeq, TTuple)) or t == TStr))
         ty = base.ty
         if ty == TStr:
             i = self.int_term(st, idx, node, 'index')
